@@ -1,4 +1,5 @@
 #!/bin/bash
+export PYVC_EVIDENCE_DIR=/tmp/pyvc_scratch_evidence   # checks against changed trees must not overwrite /verif/evidence
 # tools/seed_matrix.sh [seed ids...]: every seeded change x every check, on scratch worktrees (never touches /repo)
 # output: seeded/matrix.json  { seed: { check: rc } }
 cd "$(dirname "$0")/.." || exit 3
